@@ -2,6 +2,13 @@
 import gen
 
 PROPS = {
+    "EXP": dict(files=[("op", "exp_op.rs")]),
+    "C03": dict(
+        files=[("op", "c03_op.rs")],
+        generators=[gen.gen_c03],
+        bounds="descriptor layer: every usize; dispatcher layer: n <= 6 operands, literal null operands",
+        out="n > 6 at the dispatcher layer; equality of evaluation results of the two spellings (follows from identical parsed arguments)",
+    ),
     "C10": dict(
         files=[("op", "c10_op.rs")],
         generators=[gen.gen_c10],
